@@ -39,7 +39,14 @@ def cases(run: Run):
             "join_after": (rng.randint(1, 40) * dt if kind == "late-join" else 0),
             # another facility a few metres away, built just before this one in the same process (two dishes of one site): each keeps its own place
             "neighbour_m": rng.choice([0, 0, 2.0, 5.0, 9.0, 15.0, 40.0]),
+            # how the facility's configuration object came to be: parsed fresh, or derived from another facility's configuration that was already
+            # used (a template copied with new coordinates, a deep copy edited in place) - it must be placed where IT says
+            "derive": rng.choice(["fresh", "fresh", "copy-update", "deepcopy-edit"]),
         })
+    # runs across New Year with an epoch exactly on 1 January 00:00:00 (UT1 is still in the old year when UT1-UTC < 0)
+    for y in (2014, 2015, 2018, 2019, 2020, 2021)[: run.n(6, 6)]:
+        out.append({"kind": "new-year-midnight", "start": datetime(y, 12, 31, 23, 50 + rng.randint(0, 5), 0).isoformat(), "dt": 60, "steps": 16,
+                    "lat": rng.uniform(-60, 60), "lon": rng.uniform(-180, 180), "alt": 0.3, "join_after": 0, "neighbour_m": 0, "derive": "fresh"})
     return out
 
 
@@ -71,12 +78,26 @@ def impl_run(c):
     while t < c["join_after"]:
         clock.ticToc()
         t += c["dt"]
-    if c.get("neighbour_m"):
-        dlat = math.degrees(c["neighbour_m"] / 1000.0 / 6378.0) * (-1 if c["lat"] > 80 else 1)
+    other = None
+    derive = c.get("derive", "fresh")
+    if c.get("neighbour_m") or derive != "fresh":
+        dlat = math.degrees((c.get("neighbour_m") or 2.0e6) / 1000.0 / 6378.0) * (-1 if c["lat"] > 0 else 1)
         other = SensingAgentConfig(**scen.radar_cfg(60000, c["lat"] + dlat, c["lon"], c["alt"]))
         other_dyn = dynamicsFactory(other, PropagationConfig(), GeopotentialConfig(), PerturbationsConfig(), clock)
         other_dyn.propagate(ScenarioTime(float(clock.time)), ScenarioTime(float(clock.time) + c["dt"]), other.state.toECI(clock.datetime_epoch))
     cfg = SensingAgentConfig(**scen.radar_cfg(60001, c["lat"], c["lon"], c["alt"]))
+    if derive == "copy-update":
+        st = other.state.model_copy(update={"latitude": c["lat"], "longitude": c["lon"], "altitude": c["alt"]})
+        cfg = other.model_copy(update={"id": 60001, "name": "radar60001", "state": st})
+    elif derive == "deepcopy-edit":
+        import copy
+
+        cand = copy.deepcopy(other)
+        try:
+            cand.state.latitude, cand.state.longitude, cand.state.altitude = c["lat"], c["lon"], c["alt"]
+            cfg = cand
+        except Exception:  # noqa: BLE001  (a frozen model cannot be edited: then the fresh configuration stands)
+            pass
     dyn = dynamicsFactory(cfg, PropagationConfig(), GeopotentialConfig(), PerturbationsConfig(), clock)
     state = cfg.state.toECI(clock.datetime_epoch)
     want = lla2ecef(np.array([math.radians(c["lat"]), math.radians(c["lon"]), c["alt"]]))[:3]
@@ -123,6 +144,24 @@ def oracle(run: Run, c, impl):
         if abs(speed - expect) > 1e-6 * expect + float(Earth.spin_rate) * float(np.linalg.norm(e[:3])) * 4e-6 + 1e-9:
             fails.append(("inertial-velocity", f"inertial speed {speed:.9f} km/s, Earth rotation at that point gives {expect:.9f} km/s ({st['when']})"))
             break
+    # rigid rotation, judged without any frame conversion of the code: between consecutive epochs a point at distance rho from the rotation axis
+    # moves along a chord 2 rho sin(omega dt / 2), whatever the direction of the axis (precession and nutation move the axis, not the distance)
+    if not fails:
+        om = float(Earth.spin_rate)
+        rho = math.hypot(want[0], want[1])
+        rn = float(np.linalg.norm(want))
+        for a, b in zip(i["steps"], i["steps"][1:]):
+            chord = float(np.linalg.norm(np.array(b["eci"][:3]) - np.array(a["eci"][:3])))
+            # a UTC step that contains an inserted leap second lasts one SI second longer, and the Earth turns for all of them
+            ta, tb = datetime.fromisoformat(a["when"]), datetime.fromisoformat(b["when"])
+            leap = sum(1 for ls in (datetime(2015, 7, 1), datetime(2017, 1, 1)) if ta < ls <= tb)
+            half = math.sin(om * (c["dt"] + leap) / 2)
+            expect = 2 * rho * half
+            tol = 0.003 + 2 * half * rn * 4e-6 + 2e-6 * expect  # 3 m: steps of the tabulated UT1-UTC at day changes (~2 ms of rotation)
+            if abs(chord - expect) > tol:
+                fails.append(("inertial-track", f"{c['kind']}: site ({c['lat']:.3f}, {c['lon']:.3f}) between {a['when']} and {b['when']} moved {chord:.6f} km in the inertial frame; "
+                                                f"a point fixed to the rotating Earth moves {expect:.6f} km in {c['dt']} s ({(chord - expect) * 1000:.1f} m off)"))
+                break
     run.worse("position-error-m", worst)
     return fails
 
